@@ -90,10 +90,10 @@ CLAIMED = {
         design="5/C20",
         note="The structure hash is opaque in the history model (MD5 collision freedom outside the model); histories keep the uuid and the accessory's own entity file. No axioms."),
     "C17": dict(
-        technique="Coq proofs over a deep embedding of Go struct types and values: Unmarshal is total (no panic, no divergence) for every struct type and every byte string, by mutual induction over types with a bucket-non-empty invariant and a fuel bound; round trip and wire format theorems (see text); RTP message types regenerated from rtp/*.go and checked well-formed; differential correspondence of the extracted encoder / reader / decoder against tlv8.Marshal / Unmarshal on the real RTP types and on reflect.StructOf types of every field kind",
-        text="C17_unmarshal_total / _never_panics quantify over all struct types (scalars, nested structs, tagged and inline lists at any depth) and all byte strings: every Go operation that can panic is a partial operation in the model and every loop runs on fuel. The model is executable and is compared with hc on every RTP message type and on synthetic types with extreme values, fragments beyond 255 bytes, lists, and on mutated / random decoder input; an independent Python reference encoder judges the wire bytes and the round trip.",
+        technique="Coq proofs over a deep embedding of Go struct types and values: (1) Unmarshal (Marshal v) = v for every well-formed struct type and every value of the stated class, at any nesting depth, list length and string length, by mutual induction over values through the fragment-merging reader (frame lemma for the bucket map, column invariant for the decoder loops); (2) wire format: the bytes are the concatenation of TLV items of at most 255 value bytes, fragments concatenate to the value, integers are little-endian two's complement; (3) Unmarshal is total (no panic, no divergence) for every struct type and every byte string; RTP message types regenerated from rtp/*.go and proved well-formed; differential correspondence of the extracted encoder / reader / decoder against tlv8.Marshal / Unmarshal on the real RTP types and on reflect.StructOf types of every field kind",
+        text="C17_roundtrip / _rtp_roundtrip, C17_wire_items / _fragments / _little_endian, C17_unmarshal_total / _never_panics; the class boundary is exact on both sides (C17_roundtrip_outside_class_refuted gives the two recorded findings, C17_pinned_* the repaired defects). Every Go operation that can panic is a partial operation in the model and every loop runs on fuel. The executable model is compared with hc on every RTP message type and on synthetic types with extreme values, fragments beyond 255 bytes, lists, and on mutated / random decoder input; an independent Python reference encoder judges the wire bytes and the round trip.",
         design="5/C17",
-        note="Two decoder limitations are recorded as known findings (empty string / byte-string fields inside list elements); struct types are assumed well-formed (distinct tags 1..255, inline element tags disjoint from sibling tags). No axioms."),
+        note="Two decoder limitations are recorded as known findings (empty string / byte-string fields inside list elements; outside the theorem's value class); struct types are assumed well-formed (distinct tags 1..255, inline element tags disjoint from sibling tags, inline elements of scalars). No axioms."),
     "C14": dict(
         technique="Coq proofs: instance ids are exactly 1..n in construction order for every accessory shape, container ids unique and non-zero for every composition (invariant of AddAccessory); JSON mandatory members and catalog format / permission facts recompiled from the Go source; differential correspondence on random compositions of real constructors",
         text="C14_instance_ids_sequential / _unique_nonzero (all shapes), C14_accessory_ids_unique_nonzero (all compositions with explicit and automatic ids), C14_json_mandatory_members (struct tags regenerated by the translator), C14_every_ctor_sets_format_and_perms (finite, by computation over the regenerated catalog). Compositions of up to 40 (thorough 60) accessories from every service constructor with hidden / primary / linked services are built twice; ids are read from the objects and from the generic JSON, which is checked for HAP well-formedness.",
